@@ -33,6 +33,38 @@ Proof.
 Qed.
 End C06.
 
+(* ---- LIMIT without ORDER BY: the walker stops after n accepted rows ---- *)
+From FS Require Import gen.GatesGen model.Walk spec.WalkSpec proofs.WalkBase proofs.WalkRoots.
+Open Scope N_scope.
+
+(* for every tree, root list (each root bfs or dfs, with archives, ignores, unlistable dirs), filter and
+   n > 0: the rows under `limit n` are the first n rows of the unlimited run *)
+Theorem C06_unordered_prefix : forall accept n fuel F roots s0,
+  0 < n -> roots_ok fuel F roots -> fresh (vis s0) (flat_map root_inodes roots) ->
+  exists s1 s1', walk_roots accept false n fuel roots s0 = Some s1 /\
+                 walk_roots accept false 0 fuel roots s0 = Some s1' /\
+    out s1' = out s0 ++ flat_map (root_rows accept F) roots /\
+    out s1 = out s0 ++ firstn (N.to_nat (n - found s0)) (flat_map (root_rows accept F) roots) /\
+    found s1 = found s0 + N.of_nat (length (firstn (N.to_nat (n - found s0)) (flat_map (root_rows accept F) roots))) /\
+    (found s0 = 0 -> out s0 = [] -> out s1 = firstn (N.to_nat n) (out s1')).
+Proof. exact T4_limit_roots. Qed.
+
+(* with ORDER BY or aggregates (buffered) the walk hands EVERY candidate to the buffer, whatever the limit
+   (this is what the archive-member gate violated before the fix recorded as F48) *)
+Theorem C06_buffered_sees_every_candidate : forall accept n fuel F roots s0,
+  roots_ok fuel F roots -> fresh (vis s0) (flat_map root_inodes roots) ->
+  exists s1 s1', walk_roots accept true n fuel roots s0 = Some s1 /\
+                 walk_roots accept false 0 fuel roots s0 = Some s1' /\
+    out s1 = out s1' /\ errs s1 = errs s1' /\ found s1 = found s1'.
+Proof. exact T4_buffered_roots. Qed.
+
+Theorem C06_limit_gates : forall b l f,
+  gate_limit_dir b l f = (negb b && (0 <? l) && (l <=? f)) /\ gate_limit_arc b l f = (negb b && (0 <? l) && (l <=? f)).
+Proof. intros; split; reflexivity. Qed.
+
+Print Assumptions C06_unordered_prefix.
+Print Assumptions C06_buffered_sees_every_candidate.
+Print Assumptions C06_limit_gates.
 Print Assumptions C06_topn_prefix.
 Print Assumptions C06_length.
 Print Assumptions C06_sub_multiset.
